@@ -13,7 +13,8 @@ RULE = ("exhaustive walk of the decoder's own decision tree (a node is expanded 
         "(3 encodings) and x every table sequence; scalar values: boundaries + 20k seeded sample (thorough: all "
         "1 112 064) followed by 6 different continuations; seeded streams of recognised sequences and characters "
         "and of arbitrary bytes under every encoding and mode, each also through the real find_key closure of "
-        "Input._send; the other spellings of the three codecs (aliases, case/underscore variants, ANSI_X3.4-1968) on every "
+        "Input._send, and again cut into 2-3 pieces handed over by consecutive unget_bytes() calls with and without send(0) "
+        "in between; the other spellings of the three codecs (aliases, case/underscore variants, ANSI_X3.4-1968) on every "
         "single byte and the children of waiting bytes; 9 sequences longer than MAX_KEYPRESS_SIZE (representation level); single bursts longer than READ_SIZE through the real "
         "Input object (default paste threshold) with every multi-byte table sequence that is not a prefix and 7 "
         "multi-byte characters at every alignment across offsets READ_SIZE and 2*READ_SIZE. non-trivial = distinct (operation, encoding, mode, full, bytes) with at least 2 bytes or a "
@@ -502,6 +503,36 @@ def w_e2e(a):
     return None if real == mine else (repr(real), repr(mine))
 
 
+def w_pieces(a):
+    enc, pieces, sends, mode = a
+    real = kc.e2e_pieces(pieces, sends, enc, mode)
+    ref = kc.reference_pieces(pieces, sends, enc, mode)
+    if real == ref:
+        return None
+    return "the stream arrived in %d pieces (unget_bytes; send(0) calls in between: %r): Input returned %r, the pieces in arrival order decode to %r" % (
+        len(pieces), list(sends[:-1]), real[:8], ref[:8])
+
+
+def split_cases(ctx, streams):
+    """every stream cut into 2-3 pieces at seeded positions (also inside sequences and characters), once without and
+    once with send(0) calls between the pieces"""
+    r = ctx.rng
+    out = []
+    fixed = [("utf8", [b"a\x1b[1;", b"5C"]), ("utf8", [b"\x1b", b"[", b"A"]), ("utf8", [b"x\xe2", b"\x82\xacy"]),
+             ("ascii", [b"ab", b"\xffc"]), ("latin1", [b"\x1bO", b"Pq"]), ("utf8", [b"abc", b"def", b"ghi"])]
+    for enc, units, kind in streams:
+        buf = b"".join(units)
+        if len(buf) < 2:
+            continue
+        cuts = sorted(set(r.randrange(1, len(buf)) for _ in range(r.choice((1, 2)))))
+        fixed.append((enc, [buf[i:j] for i, j in zip([0] + cuts, cuts + [len(buf)])]))
+    for enc, pieces in fixed:
+        n = len(pieces)
+        out.append((enc, pieces, (0,) * n, "curtsies"))
+        out.append((enc, pieces, tuple(r.choice((1, 1, 2, 5)) for _ in range(n)), r.choice(("curtsies", "curses", "bytes"))))
+    return out
+
+
 def check(ctx, search=False):
     procs = 16 if ctx.thorough else 8
     tr = trees(ctx)
@@ -667,6 +698,15 @@ def check(ctx, search=False):
     for it, d in bad[:3]:
         ctx.disagreements.append(("C03/e2e-find_key", ("segment", it[0], it[2], 0, hx(it[1])), d[0], d[1]))
     ctx.ties["C03/e2e-find_key"] = dict(compared=len(items), disagreements=len(bad), involves_impl=True, level="property")
+    # ---- the same streams arriving in 2-3 pieces (consecutive unget_bytes calls, with / without send(0) in between) ---
+    items = split_cases(ctx, streams if ctx.thorough else streams[::2])
+    res = kc.par_map(w_pieces, items, procs, chunksize=100)
+    for it, w in zip(items, res):
+        case = ("pieces", it[0], it[3], list(it[2]), [hx(p) for p in it[1]])
+        ctx.count(case, nontrivial=True, tag="pieces-" + ("drained-at-end" if not any(it[2]) else "sends-between"))
+        if w:
+            ctx.violation("bytes reordered, lost or a sequence broken up across unget_bytes calls: " + w, case, None)
+    ctx.exhaustive.append("streams arriving in 2-3 pieces through consecutive unget_bytes() calls: %d schedules" % len(items))
     # ---- bursts longer than READ_SIZE through the REAL Input object (select / os.read / paste loop / find_key) -----
     items = burst_items(ctx)
     nop = [(e, None, b, k, u) for (e, _, b, k, u) in items[::4]]
@@ -711,6 +751,11 @@ def replay(payload):
         op, fam, alias, mode, full, h = c
         base = op.split("-")[0]
         return dict(case=c, under_alias=impl((base, alias, mode, full, h)), under_canonical_name=impl((base, fam, mode, full, h)))
+    if c[0] == "pieces":
+        _, enc, mode, sends, hs = c
+        pieces = [unhx(h) for h in hs]
+        return dict(case=c, input_returned=kc.e2e_pieces(pieces, sends, enc, mode),
+                    pieces_in_arrival_order_decode_to=kc.reference_pieces(pieces, sends, enc, mode))
     if c[0] == "burst":
         _, enc, pt, boundary, k, h = c
         pt = None if pt == "None" else pt
